@@ -162,8 +162,14 @@ def exhaustive(tier, seed, shard=0, nshards=1):
         if True:
             if True:
                 for ng in range(0, maxg + 1):
-                    seqs = itertools.product(kset, repeat=ng) if ng <= 2 or tier == 'thorough' else \
-                        itertools.product([-2, 0, 1, 2, 4, 16], repeat=ng)
+                    if ng <= 2 or (tier == 'thorough' and ng == 3):
+                        seqs = itertools.product(kset, repeat=ng)
+                    elif ng == 3:
+                        seqs = itertools.product([-2, 0, 1, 2, 4, 16], repeat=ng)
+                    elif v in (1, 250, 500):
+                        seqs = itertools.product([-15, -2, 0, 1, 2, 4, 16], repeat=ng)
+                    else:
+                        continue
                     for ks in seqs:
                         case = {'period': [v, pu], 'unit': du, 'tol': tol, 'ks': list(ks), 't0k': 0, 'mode': mode,
                                 'x': [1.0] * (ng + 1), 'y': [2.0] * (ng + 1)}
@@ -179,4 +185,4 @@ LANES = [
     Lane('exhaustive', None, check, 1, 1, None, custom=exhaustive, shards=16),
 ]
 
-EXTRA_COVERAGE = {'exhaustive_lane': 'all gap sequences up to length 3 (thorough: 4) over k in {-15,-2,-1,0,1,2,3,4,8,16,32}/16 x %d unit configurations x %d tolerances x online/offline' % (len(CONFIGS), len(TOLS))}
+EXTRA_COVERAGE = {'exhaustive_lane': 'all gap sequences up to length 2 (thorough: 3) over k in {-15,-2,-1,0,1,2,3,4,8,16,32}/16, length 3 (thorough: 4, for 36 configurations) over a 6 (7) element subset, x %d unit configurations x %d tolerances x online/offline' % (len(CONFIGS), len(TOLS))}
